@@ -80,6 +80,10 @@ func (m *merkleBlock) traverseAndBuild(height, pos uint32) {
 type blockFilterer struct {
 	filter         *Filter
 	matchedIndices map[int]bool
+
+	// checkedAt holds, per transaction index, the filter version at which
+	// the transaction was last checked.
+	checkedAt map[int]uint64
 }
 
 type txWithIndex struct {
@@ -91,6 +95,18 @@ type txWithIndex struct {
 // inputs to double check transactions that are in the block but were already processed.
 // This is necessary if the block is not sorted in topological order.
 func (bf *blockFilterer) checkFilterTx(tx *bchutil.Tx, txIndex int, inputs map[chainhash.Hash][]*txWithIndex) {
+	// Checking a transaction again is pointless unless the filter has
+	// changed since it was last checked: the answer and the (absence of)
+	// updates would be the same, for the transaction and, in turn, for
+	// everything that spends it.  Without this a block whose transactions
+	// spend each other densely and are listed children first takes a number
+	// of checks that is exponential in the number of transactions.
+	version := bf.filter.stateVersion()
+	if last, ok := bf.checkedAt[txIndex]; ok && last == version {
+		return
+	}
+	bf.checkedAt[txIndex] = version
+
 	if bf.filter.MatchTxAndUpdate(tx) {
 		bf.matchedIndices[txIndex] = true
 		if dependentTxs, ok := inputs[tx.MsgTx().TxHash()]; ok {
@@ -104,7 +120,7 @@ func (bf *blockFilterer) checkFilterTx(tx *bchutil.Tx, txIndex int, inputs map[c
 // GetMatchedIndices returns the index of the transactions that match the filter.
 // This works even with CTOR ordering.
 func GetMatchedIndices(block *bchutil.Block, filter *Filter) map[int]bool {
-	bf := blockFilterer{matchedIndices: make(map[int]bool), filter: filter}
+	bf := blockFilterer{matchedIndices: make(map[int]bool), checkedAt: make(map[int]uint64), filter: filter}
 	inputs := make(map[chainhash.Hash][]*txWithIndex)
 	for txIndex, tx := range block.Transactions() {
 		for _, in := range tx.MsgTx().TxIn {
